@@ -60,9 +60,18 @@ class Scanner:
         for n in self.cfg.nodes:
             if n.id not in live or n.kind != "stmt" or not isinstance(n.ast, ast.Assign):
                 continue
-            if not any(isinstance(t, ast.Name) and t.id == self.opt_param for t in n.ast.targets) or not isinstance(n.ast.value, ast.Call):
+            if not any(isinstance(t, ast.Name) and t.id == self.opt_param for t in n.ast.targets):
                 continue
-            call = n.ast.value
+
+            def arms(e):
+                return arms(e.body) + arms(e.orelse) if isinstance(e, ast.IfExp) else [e]
+            for call in [a_ for a_ in arms(n.ast.value) if isinstance(a_, ast.Call)]:
+                self._application(n, call)
+        self.pragma_dicts = set()
+        self._finish_applications()
+
+    def _application(self, n, call):
+        if True:
             comps = []
             if norm(call.func) in ("dataclasses.replace", "replace") and call.args:
                 comps.append(call.args[0])
@@ -86,7 +95,8 @@ class Scanner:
                             break
                     res.append(c)
                 self.applications.append((n, call, res))
-        self.pragma_dicts = set()
+
+    def _finish_applications(self):
         for n, call, comps in self.applications:
             for c in comps:
                 if isinstance(c, ast.Name) and c.id != self.opt_param:
@@ -750,9 +760,11 @@ def r15e(sc: Scanner, chk: Check, rule: str):
                 return pol is True
             if norm(v) == sc.src_param:
                 return pol is False
-            if not (isinstance(v, ast.Subscript) and norm(v.value) == sc.src_param):
+            all_modules = any(isinstance(c_, ast.Call) and isinstance(c_.func, ast.Attribute) and c_.func.attr in ("values", "items") and sc.src_param in {
+                x_.id for x_ in ast.walk(c_.func.value) if isinstance(x_, ast.Name)} for c_ in ast.walk(v))
+            if not (isinstance(v, ast.Subscript) and norm(v.value) == sc.src_param) and not all_modules:
                 unknown.append(norm(v))      # neither the source nor one of its modules: not judged here
-            return False
+            return False                     # (a text put together from all modules of the source is judged: directives of a library would count)
         unknown = []
         if ds and base != sc.src_param:
             detail = " | ".join(norm(d.value) if d.value is not None else d.kind for d in ds)
